@@ -43,7 +43,7 @@ Proof.
 Qed.
 
 Lemma record_mmap_data s b : data (record_mmap s b) = data s.
-Proof. unfold record_mmap, copy_to_buffer. destruct (_ && _); [|reflexivity]. destruct (give b (ws s)); reflexivity. Qed.
+Proof. unfold record_mmap, copy_to_buffer. destruct (_ && _); [|reflexivity]. destruct (give b (ws s)); [|destruct (stopped s)]; reflexivity. Qed.
 
 Lemma fits_take c s t idx r : Fits c s -> 16 + length r <= maxsize c -> length r mod 8 = 0 -> Fits c (take s t idx r).
 Proof.
@@ -87,7 +87,8 @@ Proof.
     destruct (curr s t); [destruct (f_rec _)|]; apply F.
   - unfold m_msg in H. destruct (stopped s); [discriminate|]. destruct (chan s) as [|[b|b|n] r]; try discriminate; injection H as <-;
       try exact F. intro x. unfold size. rewrite record_mmap_data. apply F.
-  - apply w_pick_spec in H. destruct H as (_ & wr & _ & _ & [[_ ->]|(b & rest & _ & ->)]); exact F.
+  - apply w_pick_spec in H. destruct H as (s0 & Ek & _ & wr & _ & _ & H).
+    destruct (take_kick_spec s s0 Ek) as [[->|(k & ->)] _]; destruct H as [[_ ->]|(b & rest & _ & ->)]; exact F.
   - apply w_write_spec in H. destruct H as (_ & wr & t0 & b & rest & _ & _ & _ & _ & ->).
     apply (fits_data_cases c s _ F). intro x. sp. unfold upd. destruct (bid_eqb x b); auto.
   - apply w_release_spec in H. destruct H as (_ & wr & t0 & b & rest & _ & _ & _ & _ & ->). exact F.
